@@ -106,7 +106,7 @@ def serialize_font_family(font_family: typing.Tuple[typing.Union[str, styles.Gen
     if isinstance(family, styles.GenericFontFamilyType):
       return family.value
     
-    return '"' + family.replace('"', r'\"') + '"'
+    return '"' + family.replace('\\', r'\\').replace('"', r'\"') + '"'
 
   return ", ".join(map(_serialize_one_family, font_family))
 
